@@ -35,3 +35,6 @@ MANIFEST_ENTRY = {
             "'captures a live class' per row. Old-format round trips for every (Data, DataCollection) version pair are a bounded stand-in.",
     "note": "Trusted: dict/defaultdict model, max-over-keys spec, hand instantiation of the invariant, importlib. [E] parts are evaluations on the current tree. Old-format equivalence is bounded (one sample collection, 4 variants x 20 version pairs).",
 }
+
+MANIFEST_ENTRY['text'] += ' registry.disable (wrapped around the recursive GlueUnSerializer.object) is proved to switch label disambiguation off for the call and to put the flag back as it found it, on return and on exceptions.'
+TRUSTED_BASE.append('registry.disable contract: Registry() is the process-wide singleton; the wrapped function is any function (may raise)')
